@@ -913,6 +913,34 @@ func c01StockHookAndVariants(c *Ctx) {
 		}
 	}
 	c.Floor("C01.h-all-links-unsegmented", 2)
+
+	// the depth options hand their argument on unchanged: negative values mean "no limit" to the code that chooses
+	// the limit, so a setter that clamps or rewrites them silently re-imposes the subscriber-wide limit
+	// (FirstSyncDepth documents 0 as unlimited and is not part of this table)
+	passThrough := map[string]bool{"depthLimit": true, "adsDepthLimit": true, "entriesDepthLimit": true, "segDepthLimit": true}
+	for _, f := range c.Funcs(dagsyncPkg) {
+		instrsDeep(f.SSA, func(g *ssa.Function, in ssa.Instruction) {
+			st, ok := in.(*ssa.Store)
+			if !ok || g.Parent() == nil {
+				return // only option closures: func(*config) / func(*syncCfg)
+			}
+			a := c.E(st.Addr)
+			if a.Op != "field" || !passThrough[a.Name] || (fieldOwner(a) != "config" && fieldOwner(a) != "syncCfg") {
+				return
+			}
+			if strip(a.Args[0]).Op != "param" {
+				return // not a setter writing through its argument
+			}
+			ok2 := true
+			for _, l := range c.Leaves(c.E(st.Val), st) {
+				if strip(l).Op != "param" {
+					ok2 = false
+				}
+			}
+			c.Check(ok2, "C01.h-depth-options-pass-through", c.short(topFunc(g).String())+" › "+a.Name, st.Pos(), "the option stores its argument as given", "the option rewrites its argument before storing it ("+abbreviate(c.E(st.Val).String())+"): the documented 'negative = no limit' no longer reaches the limit choice")
+		})
+	}
+	c.Floor("C01.h-depth-options-pass-through", 5)
 }
 
 // counterOtherWrites: positions of the writes, other than inc itself and
